@@ -98,7 +98,8 @@ def enc(step, src):
 
 def split_op(opname):
     """'op@variant' -> (op, variant); variants: '' (plain), 'umask077' (the process runs under umask 077),
-    'linked' (the TOML destinations of the operation are symbolic links / have a second hard link)"""
+    'linked' (the TOML destinations of the operation are symbolic links / have a second hard link), 'cwdin' (the process's working
+    directory is inside the layer), 'rolayer' (the layer directory has no write bit)"""
     base, _, variant = opname.partition("@")
     return base, variant
 
@@ -192,10 +193,17 @@ def execute(root, opname, shim, mode, k=0, err=5):
                 r0 = mon.call(enc(s, os.path.join(w, "src")))
                 if "err" in r0:
                     raise vp.Broken("unarmed pre-step failed: %r" % r0)
+            ldir = os.path.join(w, "layers", "L")
+            if variant == "cwdin" and os.path.isdir(os.path.join(ldir, "a", "b")):
+                # the process stands inside the layer it is about to handle (a build step that changed into its layer and never left)
+                mon.call({"op": "chdir", "dir": os.path.join(ldir, "a", "b")})
+            if variant == "rolayer" and os.path.isdir(ldir):
+                os.chmod(ldir, 0o555)      # as restored from a cache that keeps modes; the process is root, its writes go through
             if not mon.call({"op": "arm", "on": True}).get("armed"):
                 raise vp.Broken("fsshim is not loaded in the executor")
             rep = mon.call(enc(step, os.path.join(w, "src")))
             mon.call({"op": "arm", "on": False})
+            mon.call({"op": "chdir", "dir": "/"})
         finally:
             mon.close()
         ok, detail = "err" not in rep, rep.get("detail", "")[:200]
@@ -368,7 +376,9 @@ def run(tier, seed, work):
     shim = vp.build_shim()
     ops = QUICK_OPS if tier == "quick" else list(OPS)
     # the same operations in two more environments: under umask 077, and with the TOML destinations being links
-    ops = ops + [o + "@umask077" for o in ops] + [o + "@linked" for o in ops if OPS[o][1] or OPS[o][0] == "bp"]
+    ops = (ops + [o + "@umask077" for o in ops] + [o + "@linked" for o in ops if OPS[o][1] or OPS[o][0] == "bp"]
+           # ... standing inside the layer; the layer directory itself read-only (operations on an existing layer directory, layer API only)
+           + [o + "@cwdin" for o in ops if OPS[o][0] == "mon" and OPS[o][1] not in (None, "toml-only")] + [o + "@rolayer" for o in ops if OPS[o][0] == "mon" and OPS[o][1] not in (None, "toml-only")])
     errnos = ["EIO", "EACCES"] if tier == "quick" else ["EIO", "EACCES", "ENOSPC", "EPERM", "EROFS"]
     tasks = []
     for i, opname in enumerate(ops):
